@@ -40,7 +40,47 @@ def _deep_has_lit(n, v):
     return False
 
 
+def fixed_reads_rule(ck, P):
+    """R-FIXED-READ: a reader may ask the data source unconditionally only for what the format guarantees to exist — the fixed-size
+    header.  Every read_range on a DataReaderTrait object in the pmtiles / versatiles readers whose range is a constant
+    (ByteRange::new(c1, c2) after resolving constants and `len()` helpers) must end within the published header length; all other
+    ranges come from decoded fields.  A bigger fixed read fails on every valid archive that is shorter than it."""
+    from . import affine as A
+    n_const, n_all, bad = 0, 0, []
+    for b in P.bodies:
+        q = b["q"]
+        fmt = "pmtiles.header" if "::container::pmtiles::" in q else ("versatiles.header" if "::container::versatiles::" in q else None)
+        if fmt is None or "::tests::" in q or "riter" in q:
+            continue
+        lets = comp.lets_of(b)
+        for n in ir.walk_nodes(b["body"]):
+            if not (n.get("k") == "mcall" and (n.get("q") or "").endswith("DataReaderTrait::read_range") and n.get("a")):
+                continue
+            n_all += 1
+            a = ir.strip(n["a"][0])
+            seen = 0
+            while a is not None and a.get("k") == "path" and a.get("r") == "local" and a["hid"] in lets and seen < 4:
+                a = ir.strip(lets[a["hid"]])
+                seen += 1
+            if a is None or not (a.get("k") == "call" and (a.get("q") or "").endswith("ByteRange::new") and len(a.get("a", ())) == 2):
+                continue
+            env = A.Env()
+            off = A.as_const(wire._resolve_const_calls(P, A.ev(a["a"][0], env)))
+            ln = A.as_const(wire._resolve_const_calls(P, A.ev(a["a"][1], env)))
+            if off is None or ln is None:
+                continue
+            n_const += 1
+            lim = wire.SPEC_LAYOUT[fmt]["len"]
+            if off + ln > lim:
+                bad.append("%s reads the fixed range %d..%d (the %s is %d bytes) at %s" % (q.rsplit("::", 2)[-1] if "::" in q else q, off, off + ln, fmt, lim, ir.loc(n)))
+    ck.anchor("R-FIXED-READ", "read_range calls in the pmtiles/versatiles readers", n_all, 8)
+    ck.anchor("R-FIXED-READ", "constant ranges among them", n_const, 2)
+    ck.check(not bad, "R-FIXED-READ", "readers|header-only", "the only fixed-size reads are the published headers (%d constant range(s) of %d reads)" % (n_const, n_all),
+             "%s: a valid archive shorter than that cannot be opened (the formats only bound where the header and root directory lie, not the file length)" % bad[:2])
+
+
 def rules(ck, P):
+    fixed_reads_rule(ck, P)
     # ---------------- R-SQL-NULL
     n_rows = 0
     for b in P.bodies:
